@@ -371,7 +371,8 @@ StoreSkip ==                          \* storeTask sees ctx.Done
   /\ UNCHANGED <<srcVars, auxVars, lifeVars, faults, local, cancelled, nextFetch, weff, fq, rv, sp, modeVars, curr, revSince, seenVers>>
 
 StoreErr ==                           \* any error but ErrParentDoesNotMatchHead: "expected block #n" (a block of
-                                      \* another height), or the state root a forged successor's diff produces
+                                      \* another height), or a state-root check refusing a forged successor
+                                      \* (forged = "is a forgery the root checks refuse", see FetchReturn)
   /\ CallbackReady /\ vq[1].kind = "block" /\ ~vq[1].bad /\ PassedCtxCheck
   /\ \/ vq[1].h # Len(local)
      \/ (vq[1].forged /\ ParentOf(vq[1].blk) = HeadTag(local))
